@@ -15,7 +15,7 @@ import (
 func init() {
 	register(&PropSpec{
 		ID:       "C01",
-		Patterns: append(codecPatterns(), "./pkg/filter/network/streamproxy", "./pkg/stream/http2", "./pkg/protocol/http2"),
+		Patterns: append(codecPatterns(), "./pkg/filter/network/streamproxy", "./pkg/stream/http2", "./pkg/protocol/http2", "mosn.io/pkg/header"),
 		Explanation: "(R1) layout agreement: the decoder's map field -> (wire offset, width), read off the stores into the frame header, equals the encoder's map computed by summing the widths of its straight-line WriteByte/WriteUint16/32/64 sequence; the request-id patch of the fast path hits that field's offset and width; the fixed header length equals the bytes written; class/header/content are cut at H, H+class, H+class+header and written in that order. " +
 			"(R2) no aliasing: nothing derived by slicing from the connection read buffer's Bytes() is stored into a frame field, wrapped by NewIoBufferBytes or published through variable.Set (copy/Write/string() are the barriers). " +
 			"(R3) the fast path returns the retained buffer only under every dirty bit the frame's mutators write (or the mutators drop the retained bytes), and writes nothing but the id patch into retained memory. " +
